@@ -325,6 +325,9 @@ def run(ctx, chk, tier="quick"):
     _already_populated(ctx, chk, load, lflow)
     # ---------------- O4 (ii): non-uniform step
     _nonuniform(ctx, chk, load, lflow)
+    from ..sqlrules import conflict_clauses
+    conflict_clauses(ctx, chk, "C11.O4", ("load",), "load",
+                     "a rainfall, ET or water-level file in which a timestamp occurs twice (a zero-length step) is merged silently instead of refused: the staging tables' primary key is what refuses it")
     # ---------------- O4 (iii): missing ET
     _missing_et(ctx, chk, load)
     # ---------------- no swallowing try around the load step or inside it
